@@ -77,7 +77,7 @@ def knn_cases(draw):
     vals = draw(st.lists(st.one_of(st.integers(-100, 100).map(float), gen.finite(-1e3, 1e3)), min_size=n, max_size=n))
     return dict(mode=mode, data=pts, values=vals, query=qs, k=draw(st.integers(1, n)), reduction=draw(st.sampled_from(list(REDS))),
                 dshape=draw(st.sampled_from(blocks.shape_options(n))), qshape=draw(st.sampled_from(blocks.shape_options(len(qs)))),
-                extra=draw(st.booleans()), orders=draw(build.orders_strategy()))
+                extra=draw(st.booleans()), orders=draw(build.orders_strategy()), container=draw(st.sampled_from(build.CONTAINERS)))
 
 
 def check_knn(case, ctx):
@@ -89,8 +89,9 @@ def check_knn(case, ctx):
     lay = build.Lay(case.get("orders"))
     coords = (lay(d[:, 0], dshape), lay(d[:, 1], dshape)) + ((np.zeros(dshape),) if case["extra"] else ())
     kn = vd.KNeighbors(k=k, reduction=REDS[case["reduction"]]) if (k, case["reduction"]) != (1, "mean") else vd.KNeighbors()
-    kn.fit(coords, lay(vals, dshape))
-    qcoords = (lay(q[:, 0], qshape), lay(q[:, 1], qshape))
+    P = lambda a: build.present(a, case.get("container"))  # noqa: E731
+    kn.fit(tuple(P(c) for c in coords), P(lay(vals, dshape)))
+    qcoords = (P(lay(q[:, 0], qshape)), P(lay(q[:, 1], qshape)))
     pred = np.asarray(kn.predict(qcoords))
     ctx.check(pred.shape == tuple(qshape), "prediction shape %s, query shape %s", pred.shape, tuple(qshape))
     D = dist_matrix(q, d)
@@ -122,7 +123,7 @@ def median_cases(draw):
     n = len(pts)
     return dict(mode=mode, data=pts, k=draw(st.integers(1, n - 1)), shape=draw(st.sampled_from(blocks.shape_options(n))),
                 proj=draw(st.one_of(st.none(), st.tuples(st.sampled_from([1.0, 2.0, 0.5, 10.0, -1.0]), st.sampled_from([1.0, 3.0, 0.25, -2.0])))),
-                extra=draw(st.booleans()), orders=draw(build.orders_strategy()))
+                extra=draw(st.booleans()), orders=draw(build.orders_strategy()), container=draw(st.sampled_from(build.CONTAINERS)))
 
 
 def check_median(case, ctx):
@@ -132,7 +133,7 @@ def check_median(case, ctx):
     coords = (lay(d[:, 0], shape), lay(d[:, 1], shape)) + ((np.ones(shape),) if case["extra"] else ())
     proj = proj_from(case["proj"])
     kw = {} if proj is None else dict(projection=proj)
-    got = np.asarray(vd.median_distance(coords, k_nearest=case["k"], **kw))
+    got = np.asarray(vd.median_distance(tuple(build.present(c, case.get("container")) for c in coords), k_nearest=case["k"], **kw))
     ctx.check(got.shape == tuple(shape), "result shape %s, input shape %s", got.shape, tuple(shape))
     p = d if proj is None else np.transpose(proj(d[:, 0], d[:, 1]))
     D = dist_matrix(p, p)
